@@ -187,14 +187,14 @@ inline void check_next(World& w, Outcome& o, NextStats& ns) {
         auto& mi = w.meths[m];
         const MethSpec& ms = *mi.ms;
         for (std::size_t d = 0; d < ms.defs.size(); ++d) {
-            if (!mi.defs[d].method) {
+            if (!mi.defs[d]->method) {
                 continue; // not registered (histories)
             }
             auto general = more_general(s, ms, int(d));
             ns.two_general |= general.size() >= 2;
             Sel sel = select(s, ms, general);
             void* expected = w.expected_pointer(m, sel);
-            void* got = mi.next_store[d];
+            void* got = *mi.next[d];
             if (got != expected) {
                 o.fail("next: method#" + std::to_string(m) + " def#" +
                        std::to_string(d) + " next is " +
@@ -504,7 +504,7 @@ inline Obs observe(World& w) {
         }
         for (std::size_t d = 0; d < mi.ms->defs.size(); ++d) {
             obs.next[{mi.ms->shape, mi.ms->key, mi.ms->defs[d].fn}] =
-                classify_pointer(mi, mi.next_store[d]);
+                classify_pointer(mi, *mi.next[d]);
         }
     }
     return obs;
